@@ -151,4 +151,55 @@ theorem C11_gen_parse_value_abs (W : Obj.World α) (inv : Policy) (f : Field κ 
         cases inv <;> simp only [encContext, encRunOptions, encPolicy] at he <;> cases p <;> cases required <;>
           cases default <;> pv_simp [he, hc, parseValueAbs, hp, hw.copy] <;> rfl
 
+/-! ### `BaseParser.parse_addition` -/
+
+/-- the parser as `parse_addition` reads it: nothing excluded, an addition type only for `typed` -/
+def encParser (a : Addition α) : OVal α :=
+  .obj "ClassParser" [("exclude_vars", .seq .list []),
+    ("addition_type", match a with | .typed _ => .cls 0 | _ => .none)]
+
+def encAddOpt : Addition α → OVal α
+  | .ignore => .none
+  | .forbid => .bool false
+  | _ => .bool true
+
+/-- a fail-fast context with `invalid_values = inv` and `addition` as the model's -/
+def encAddContext (inv : Policy) (a : Addition α) : OVal α :=
+  .obj "RuntimeContext" [("errors", .seq .list []), ("tmp_errors", .seq .list []),
+    ("options", .obj "Options" [("EXCLUDE", .str "exclude"), ("PRESERVE", .str "preserve"),
+      ("invalid_values", encPolicy inv), ("addition", encAddOpt a), ("collect_errors", .bool false),
+      ("max_errors", .none)])]
+
+structure AddWorldOk (W : Obj.World α) (a : Addition α) (key ctx : OVal α) : Prop where
+  enter : W.ext "enter" [ctx, key, .none] = .ok (.obj "RuntimeContext" [("transformer", .fn 0)])
+  conv : ∀ p x, a = .typed p → W.call (.fn 0) [.val x, .cls 0] =
+    match p x with
+    | some y => .ok (.val y)
+    | none => .error .typeError
+
+def decodeAdd : OVal α × Outcome α → AddOut α
+  | (_, .ret (.val v)) => .value v
+  | (_, .ret _) => .unprovided
+  | (_, .raise (.obj "ExceedError" _)) => .exceed
+  | (_, .raise _) => .raise
+
+theorem C11_gen_parse_addition (W : Obj.World α) (inv : Policy) (a : Addition α) (key : OVal α) (x : α)
+    (hw : AddWorldOk W a key (encAddContext inv a)) :
+    (Parse.parse_addition W (encParser a) key (.val x) (encAddContext inv a)).map decodeAdd
+      = .ok (parseAddition inv a x) := by
+  gen_obligation "C11_gen_parse_addition: the regenerated code (Utv.Gen) is no longer equal to the hand model here" by
+    have he := hw.enter
+    cases a with
+    | typed p =>
+      have hc := hw.conv p x rfl
+      cases hp : p x <;> rw [hp] at hc <;> cases inv <;>
+        simp only [encAddContext, encPolicy, encAddOpt] at he <;>
+        obj_simp [Parse.parse_addition, Options.handle_error, encParser, encAddContext, encAddOpt, encPolicy, getattr, setattr,
+          lookupAttr, setAttrL, append, contains, memS, OVal.isFalse, he, hc, eq, eqS, decodeAdd, Except.map, parseAddition, hp,
+          tryCatch, tryCatchThe, MonadExceptOf.tryCatch, Except.tryCatch, Exc.isA] <;> rfl
+    | _ =>
+      cases inv <;>
+        obj_simp [Parse.parse_addition, Options.handle_error, encParser, encAddContext, encAddOpt, encPolicy, getattr, setattr,
+          lookupAttr, setAttrL, append, contains, memS, OVal.isFalse, decodeAdd, Except.map, parseAddition]
+
 end Utv.GenEq.C11
